@@ -193,7 +193,7 @@ func c18RunBatch(l *evlog.Log, c *evlog.Case, cases []*c18PeerCase) {
 			c.Inconclusive("write batch: " + err.Error())
 			return
 		}
-		ctx, cancel := context.WithTimeout(context.Background(), 10*time.Minute)
+		ctx, cancel := context.WithTimeout(context.Background(), 3*time.Minute)
 		cmd := exec.CommandContext(ctx, os.Args[0], "-test.run", "^TestVerifC18Child$", "-test.count", "1", "-test.timeout", "0")
 		cmd.Env = append(os.Environ(), "VERIF_C18_CHILD_IN="+in, "VERIF_C18_CHILD_OUT="+out, "VERIF_OUT=", "VERIF_ONLY=", "VERIF_RESUME_AFTER=", "VERIF_SHARD=", "GOTRACEBACK=all")
 		var so bytes.Buffer
@@ -240,7 +240,7 @@ func c18RunBatch(l *evlog.Log, c *evlog.Case, cases []*c18PeerCase) {
 		}
 		pc := byIdx[started]
 		if timedOut {
-			c.Inconclusive(fmt.Sprintf("child process exceeded 10 min wall clock in case %s", pc.Name))
+			c.Inconclusive(fmt.Sprintf("child process exceeded 3 min wall clock in case %s", pc.Name))
 		} else {
 			tail, head := c18ClassifyPanic(so.String())
 			target := pc.Target
